@@ -41,3 +41,6 @@ int mythv_queue_owner(const volatile void * addr, int nworkers) {
   }
   return -1;
 }
+
+/* has this worker been told to leave its scheduling loop? */
+int mythv_exit_requested(int rank) { return g_envs[rank].exit_flag != 0; }
